@@ -219,7 +219,7 @@ def gen_cases(ctx):
                 for d in [0.3, 0.75, rng.choice(SCALARS), [0.25, math.nan, 1.5, math.inf]]:
                     yield {"mode": "trigger", "conclusions": [{"var": var, "hedges": hl, "term": term}], "degree": d}, "single"
     # (2) 2-3 conclusions, all permutations
-    for _ in range(ctx.scale(220, 4000)):
+    for _ in range(ctx.scale(1500, 15000)):
         k = rng.choice([2, 2, 3])
         cs = [{"var": rng.choice(OUTS), "hedges": rng.choice(HL if rng.random() < 0.7 else [[]]), "term": rng.choice(TERMS)}
               for _ in range(k)]
@@ -247,7 +247,7 @@ def load_cases(ctx):
     """texts for Consequent.load: well-formed ones from the generator, plus malformed variants"""
     rng = ctx.rng
     HL = hedge_lists()
-    for _ in range(ctx.scale(300, 3000)):
+    for _ in range(ctx.scale(2000, 20000)):
         k = rng.choice([1, 2, 3])
         toks = []
         for i in range(k):
@@ -288,10 +288,46 @@ def corpus_cases():
         yield json.load(open(p))["case"]
 
 
-def model_lines(case):
+def model_lines(case, cmd="trigger"):
     en = case.get("outputs_enabled", {})
     cs = [[c["var"], int(en.get(c["var"], True)), list(c["hedges"]), c["term"]] for c in case["conclusions"]]
-    return [C.sx(["trigger", int(case.get("rule_enabled", True)), d, "AlgebraicProduct", cs]) for d in rule_degrees(case)]
+    return [C.sx([cmd, int(case.get("rule_enabled", True)), d, "AlgebraicProduct", cs]) for d in rule_degrees(case)]
+
+
+def read_model(outs, s0, n):
+    """n driver answers (one per batch element) -> (triggered flags, {output: [(term, [degrees], impl)]}) or an error text"""
+    model = {o: [] for o in OUTS}
+    mtrig = []
+    for j in range(n):
+        p = C.parse_sx(outs[s0 + j])
+        if not isinstance(p, list) or len(p) != 2:
+            return None, None, f"driver rejected the case: {outs[s0 + j]}"
+        mtrig.append(p[0] == "1")
+        per = {o: [] for o in OUTS}
+        for var, term, deg, impl in p[1]:
+            per[var].append((term, C.parse_x(deg), impl))
+        for o in OUTS:
+            if j == 0:
+                model[o] = [(t, [d], i) for t, d, i in per[o]]
+            else:
+                for slot, (t, d, i) in zip(model[o], per[o]):
+                    slot[1].append(d)
+    return mtrig, model, None
+
+
+def diff_model(ob, mtrig, model):
+    if "raised" in ob:
+        return f"implementation raised {ob['raised']}"
+    if bcast(ob["triggered"], len(mtrig)) != mtrig:
+        return f"Rule.triggered: implementation {ob['triggered']}, model {mtrig}"
+    for o in OUTS:
+        a, b = ob["outputs"][o], model[o]
+        if [(t, i) for t, _, i in a] != [(t, i) for t, _, i in b] or any(
+                len(da) != len(db) or not all(C.close(x, y) for x, y in zip(da, db))
+                for (_, da, _), (_, db, _) in zip(a, b)):
+            return (f"fuzzy output of {o}: implementation {a}, model "
+                    f"{[(t, [str(d) for d in ds], i) for t, ds, i in b]}")
+    return None
 
 
 def correspond(ctx):
@@ -303,6 +339,9 @@ def correspond(ctx):
         ls = model_lines(case)
         spans.append((len(lines), len(ls)))
         lines += ls
+    n_pinned = len(lines)
+    for case, _ in cases:
+        lines += model_lines(case, "trigger-repaired")
     ltoks = list(load_cases(ctx))
     outs_decl = [[o, TERMS] for o in OUTS] + [["o4", []]]
     lines += [C.sx(["consequent-load", outs_decl, hedge_names(), t]) for t in ltoks]
@@ -311,43 +350,21 @@ def correspond(ctx):
         st.count(kind)
         st.count("mode-" + case["mode"])
         ob = observe(case)
-        model = {o: [] for o in OUTS}
-        mtrig = []
-        bad = None
-        for j in range(n):
-            p = C.parse_sx(outs[s0 + j])
-            if not isinstance(p, list) or len(p) != 2:
-                bad = f"driver rejected the case: {outs[s0 + j]}"
-                break
-            mtrig.append(p[0] == "1")
-            per = {o: [] for o in OUTS}
-            for var, term, deg, impl in p[1]:
-                per[var].append((term, C.parse_x(deg), impl))
-            for o in OUTS:
-                if j == 0:
-                    model[o] = [(t, [d], i) for t, d, i in per[o]]
-                else:
-                    for slot, (t, d, i) in zip(model[o], per[o]):
-                        slot[1].append(d)
-        nt = any(d not in (0, 1) for o in OUTS for _, ds, _ in model[o] for d in ds)
-        st.case(key_static(case), nt, sample={"rule": text_of(case), "degree": rule_degrees(case), "impl": ob.get("outputs"),
-                                             "model": {o: [(t, [str(d) for d in ds]) for t, ds, _ in model[o]] for o in OUTS}}
-                if kind == "perm" else None)
-        st.validated += 1
+        mtrig, model, bad = read_model(outs, s0, n)
         if bad is None:
-            if "raised" in ob:
-                bad = f"implementation raised {ob['raised']}"
-            elif bcast(ob["triggered"], len(mtrig)) != mtrig:
-                bad = f"Rule.triggered: implementation {ob['triggered']}, model {mtrig}"
-            else:
-                for o in OUTS:
-                    a, b = ob["outputs"][o], model[o]
-                    if [(t, i) for t, _, i in a] != [(t, i) for t, _, i in b] or any(
-                            len(da) != len(db) or not all(C.close(x, y) for x, y in zip(da, db))
-                            for (_, da, _), (_, db, _) in zip(a, b)):
-                        bad = (f"fuzzy output of {o}: implementation {a}, model "
-                               f"{[(t, [str(d) for d in ds], i) for t, ds, i in b]}")
-                        break
+            nt = any(d not in (0, 1) for o in OUTS for _, ds, _ in model[o] for d in ds)
+            st.case(key_static(case), nt, sample={"rule": text_of(case), "degree": rule_degrees(case), "impl": ob.get("outputs"),
+                                                 "model": {o: [(t, [str(d) for d in ds]) for t, ds, _ in model[o]] for o in OUTS}}
+                    if kind == "perm" else None)
+            st.validated += 1
+            bad = diff_model(ob, mtrig, model)
+            if bad:
+                # the loop as written no longer matches: does the implementation follow the repaired loop (F3 fixed upstream)?
+                rtrig, rmodel, rbad = read_model(outs, n_pinned + s0, n)
+                if rbad is None and diff_model(ob, rtrig, rmodel) is None:
+                    st.count("matches-repaired-loop-not-the-pinned-one")
+                    ctx.notes["F3"] = "the implementation follows the repaired loop (modify_spec) on inputs where the pinned loop leaks"
+                    bad = None
         if bad:
             mism.append({"case": case, "impl": ob, "model": [outs[s0 + j] for j in range(n)], "what": bad})
         # the property itself, on the implementation
